@@ -336,6 +336,10 @@ def accessor_only(repo, res):
     sy = _N2("FFCXBackendSymbols", coefficients=it2.construct("Symbol", ["w", "DataType.SCALAR"], {}), constants=it2.construct("Symbol", ["c", "DataType.SCALAR"], {}),
              coefficient_offsets={c0: 0, c1: 6}, original_constant_offsets={k0: 0, k1: 4}, coefficient_numbering={c0: 0, c1: 1})
     ac = _N2("FFCXBackendAccess", symbols=sy, entity_type="cell", integral_type="cell")
+    init_ = am.funcs.get("FFCXBackendAccess.__init__")
+    if init_ is not None:
+        it2.init_object(ac, init_, ["cell", "cell", sy, {}])   # plain per-kernel state the accessors rely on
+        ac.f.update(symbols=sy, entity_type="cell", integral_type="cell")
 
     def where(acc):
         ex = _Exec2(())
@@ -363,6 +367,21 @@ def accessor_only(repo, res):
         got = f"raises {e}"
     if got != ("w", (8,)):
         res.fail(key, f"a directly referenced dof (real element, table offset 2) of the second coefficient (offset 6) is read at {got}, expected w[8]", am.line(f.node))
+    # the same single-dof component on both sides of an interior facet, and again: every request gets the slot of ITS restriction
+    key = f"{f.key}:direct-dof:both-sides"
+    res.ob(key)
+    seq = [("+", 2, 8), ("-", 5, 11), ("+", 2, 8), ("-", 5, 11)]
+    for restr, off, want_i in seq:
+        td = _N2("UniqueTableReferenceT", ttype="ones", values=_N2("ndarray", shape=(1, 1, 1, 1), size=1), offset=off, block_size=1)
+        try:
+            got = where(it2.call_f(f, [ac, _N2("ModifiedTerminal", terminal=c1, restriction=restr, flat_component=0, component=()), td, None]))
+        except (_R2, KeyError, AttributeError) as e:
+            got = f"raises {e}"
+        if got != ("w", (want_i,)):
+            res.fail(key, f"within one kernel the single-dof coefficient is requested for the restrictions {[r_ for r_, _o, _w in seq]}; the request for {restr!r} "
+                     f"(table offset {off}) is read at {got}, expected w[{want_i}]: the \"-\" value lives element-dimension slots after the \"+\" value, "
+                     "jump(k) would vanish", am.line(f.node))
+            break
     # the definition of coefficient values: GEN-DEFS (interpreted on samples)
     # NULL-pointer guard: entity index of cells is the literal 0, before any subscript of entity_local_index
     ef = sm.func("FFCXBackendSymbols.entity")
@@ -408,7 +427,7 @@ def accessor_only(repo, res):
 
 @rule(
     "PREFIX-OFFSETS",
-    ["C05"],
+    ["C05", "C01", "C02"],
     "coefficient offsets are an exclusive prefix sum (store before increment) of width*element dimension "
     "over zip(reduced_coefficients, coefficient_elements), width 2 exactly for interior facets; constant "
     "offsets are an exclusive prefix sum of prod(shape) over original_form.constants(), the same sequence "
@@ -445,6 +464,18 @@ def prefix_offsets(repo, res):
             res.fail(key, f"{itype} integral with reduced coefficients [B (dim 3), C (dim 4)]: coefficient offsets into w are {got}, expected {want}; ufcx.h: "
                      "w[coefficient][restriction][dof], an exclusive prefix sum of the element dimensions, with two restrictions exactly on interior facets",
                      rep.line(f.node))
+    # a coefficient this integral does not use still occupies its slots: the caller packs ALL form coefficients into w
+    for itype in ("cell", "interior_facet"):
+        width = 2 if itype == "interior_facet" else 1
+        key = f"{f.key}:prefix:coefficient_offsets:disabled-coefficients:{itype}"
+        res.ob(key)
+        for enabled in ((False, True, True), (True, False, True), (False, False, True)):
+            got = named(run(f, integral_env(itype, coefs=("A", "B", "C"), enabled=enabled), "coefficient offsets", key="coefficient_offsets"))
+            want = [("A", 0), ("B", 6 * width), ("C", 9 * width)]
+            if got != want:
+                res.fail(key, f"{itype} integral of a form with coefficients [A (dim 6), B (dim 3), C (dim 4)] of which {list(enabled)} are used by this integral: offsets "
+                         f"into w are {got}, expected {want}; the UFCx caller packs every coefficient of the form, used or not", rep.line(f.node))
+                break
     key = f"{f.key}:numbering"
     res.ob(key)
     got = named(run(f, integral_env("cell"), "numbering", key="coefficient_numbering"))
@@ -1040,8 +1071,32 @@ def geom_table_maps(repo, res):
                  "no table declaration (undeclared identifier in the generated C) or an unknown table name", me.line(fe.node))
     gm = repo.mod("ffcx.codegeneration.geometry")
     wt = gm.func("write_table")
-    known = {const_value(n.comparators[0]) for n in ast.walk(wt.node) if isinstance(n, ast.Compare) and isinstance(n.comparators[0], ast.Constant)
-             and isinstance(n.comparators[0].value, str)}
+    from ..absint import Interp as _IG, Raised as _RG, _PyCall as _PCG
+    from ..lnodes_model import load_classes as _lcg
+
+    _known_cache = {}
+
+    def is_known(name):
+        """write_table, interpreted with the per-table writers stubbed, accepts the name (whatever the shape of its dispatch)."""
+        if name not in _known_cache:
+            it = _IG(repo, _lcg(repo), primary="ffcx.codegeneration.geometry")
+            for q_, fn_ in gm.funcs.items():
+                if "." not in q_ and q_ != "write_table":
+                    it.overrides[q_] = _PCG(lambda *a, _q=q_, **k: f"<table written by {_q}>")
+            try:
+                out = it.call_f(wt, [name, "tetrahedron"])
+                _known_cache[name] = out is not None
+            except _RG:
+                _known_cache[name] = False
+        return _known_cache[name]
+
+    class _Known:
+        def __contains__(self, name):
+            return isinstance(name, str) and is_known(name)
+
+        def __rsub__(self, other):
+            return {x for x in other if x not in self}
+    known = _Known()
     key = "generators:geometry-names-known"
     res.ob(key)
     for nm, mp, mod_, f_ in (("integral", a, mi, fi), ("expression", b, me, fe)):
